@@ -193,7 +193,7 @@ def _sysrun(tier, seed, log=print):
         scns = families.all_scenarios(seed, tier)
         if tier == 'quick':
             core = [x for x in scns if x.get('core')]
-            scns = core + _sample([x for x in scns if not x.get('core')], rng, 90)
+            scns = core + _sample([x for x in scns if not x.get('core')], rng, 72)
         fam_outs = explore.run_scenarios(scns, scratch)
         log('      %d scenarios, %d with harness errors' % (len(fam_outs), sum(1 for o in fam_outs if o['error'])))
         log('[4/5] fault / third-party enumeration on the real code')
@@ -205,7 +205,7 @@ def _sysrun(tier, seed, log=print):
             variants += make_variants(b, o, rng, tier)
         nvar_all = len(variants)
         if tier == 'quick':
-            variants = _sample(variants, rng, 100, key=lambda v: v['fault']['kind'])
+            variants = _sample(variants, rng, 84, key=lambda v: v['fault']['kind'])
         var_outs = explore.run_scenarios(variants, scratch)
         for v, o in zip(variants, var_outs):
             o['fault'] = v['fault']
